@@ -156,6 +156,7 @@ func checkHandlerCtxProvenance(c *Ctx, p *Prog, R *BusRoles) {
 	}
 	scan(R.PublishFn)
 	c.Floor("C08.R2", "dispatch call sites", m, 2)
+	checkPublishCtxNotNarrowed(c, p, R, "C08.R2")
 	// Publish delegates to PublishContext with a background context (documented)
 }
 
@@ -323,6 +324,10 @@ func checkWaitAndShutdown(c *Ctx, p *Prog, R *BusRoles) {
 			}
 		}
 		if onDone && !onCtx {
+			if call, isCall := stripConv(v).(*ssa.Call); isCall && call.Common().IsInvoke() && call.Common().Method.Name() == "Err" {
+				okRets = false
+				c.Violate("C06.R4", "Shutdown/done-arm-result", p.Pos(ret.Pos()), "on the completion arm Shutdown returns the context's error: when the context expires while the store is being closed, Shutdown reports the context error although it has closed the store", nil)
+			}
 			// a value received from the completion channel must not smuggle a Close done elsewhere: handled by (b)
 			if _, isRecv := stripConv(v).(*ssa.Extract); isRecv {
 				okRets = false
@@ -334,4 +339,73 @@ func checkWaitAndShutdown(c *Ctx, p *Prog, R *BusRoles) {
 		c.Discharge("C06.R4", "Shutdown/results", p.Pos(sd.Pos()), "nil only on the completion arm; the context arm returns ctx.Err()")
 	}
 	_ = token.NoPos
+}
+
+// checkPublishCtxNotNarrowed: PublishContext (and its closures) never derive a
+// cancellable context of their own. A context.WithTimeout/WithCancel/WithDeadline whose
+// cancel runs when PublishContext returns, handed to handlers, skips the handlers after a
+// slow one and drops async deliveries that start after the publish returned — although the
+// caller's context is live.
+func checkPublishCtxNotNarrowed(c *Ctx, p *Prog, R *BusRoles, rule string) {
+	n := 0
+	var scan func(g *ssa.Function)
+	scan = func(g *ssa.Function) {
+		for _, b := range g.Blocks {
+			for _, in := range b.Instrs {
+				if call, ok := in.(*ssa.Call); ok {
+					switch calleeName(call.Common()) {
+					case "context.WithTimeout", "context.WithCancel", "context.WithDeadline", "context.WithCancelCause", "context.WithTimeoutCause", "context.WithDeadlineCause":
+						n++
+						c.Violate(rule, "PublishContext/publish-context-not-narrowed/"+FuncDisplay(g), p.Pos(in.Pos()), "PublishContext derives a cancellable context ("+calleeName(call.Common())+") from the publish context: handlers polled or started after its deadline/cancel are skipped and async deliveries are dropped although the caller's context is still live", nil)
+					}
+				}
+			}
+		}
+		for _, a := range g.AnonFuncs {
+			scan(a)
+		}
+	}
+	scan(R.PublishFn)
+	if n == 0 {
+		c.Discharge(rule, "PublishContext/publish-context-not-narrowed", p.Pos(R.PublishFn.Pos()), "the publish context is only ever replaced by the result of Observability.OnPublishStart")
+	}
+}
+
+// checkHookSlotWriters (C08.R3): every exported option / setter writes only the hook slot
+// it is named after, so installing one hook cannot displace another.
+func checkHookSlotWriters(c *Ctx, p *Prog, R *BusRoles, rule string) {
+	owner := map[string]string{
+		"WithBeforePublish": R.BusBefore, "SetBeforePublishHook": R.BusBefore,
+		"WithAfterPublish": R.BusAfter, "SetAfterPublishHook": R.BusAfter,
+		"WithBeforePublishContext": R.BusBeforeCtx, "WithAfterPublishContext": R.BusAfterCtx,
+	}
+	slots := map[string]bool{R.BusBefore: true, R.BusAfter: true, R.BusBeforeCtx: true, R.BusAfterCtx: true}
+	n := 0
+	for _, f := range p.FuncsIn(PkgBus) {
+		for _, b := range f.Blocks {
+			for _, in := range b.Instrs {
+				st, ok := in.(*ssa.Store)
+				if !ok {
+					continue
+				}
+				tn, fld, _, ok := fieldOfAddr(st.Addr)
+				if !ok || tn != "EventBus" || !slots[fld] {
+					continue
+				}
+				n++
+				root := outermost(f).Name()
+				want, known := owner[root]
+				construct := "hook-slot-writer/" + root + "/" + fld
+				switch {
+				case !known:
+					c.Violate(rule, construct, p.Pos(in.Pos()), root+" writes the "+fld+" hook slot: a hook installed by the user can be displaced", nil)
+				case want != fld:
+					c.Violate(rule, construct, p.Pos(in.Pos()), root+" writes the "+fld+" slot instead of its own ("+want+"): the hook the user installed there through its own option is silently replaced and never runs", nil)
+				default:
+					c.Discharge(rule, construct, p.Pos(in.Pos()), "writes its own slot")
+				}
+			}
+		}
+	}
+	c.Floor(rule, "hook slot writers", n, 6)
 }
